@@ -59,6 +59,18 @@ fn leading_comment_is_on_token_line(comment: &Comment, token: &Token) -> bool {
     token.pos.start().line == comment.range.start.line
 }
 
+/// Returns whether the opening delimiter of a comment forms a different delimiter when it
+/// is written directly behind the character `previous`:
+/// * `-` followed by `--` is a comment that starts one character too early
+/// * `?` followed by `/*` starts with the first two characters of the `?/=` operator
+fn comment_merges_with_previous_char(comment: &Comment, previous: char) -> bool {
+    if comment.multi_line {
+        previous == '?'
+    } else {
+        previous == '-'
+    }
+}
+
 impl From<Buffer> for String {
     fn from(value: Buffer) -> Self {
         value.inner
@@ -116,6 +128,15 @@ impl Buffer {
         }
         self.insert_extra_newline = false;
         if let Some(comments) = &token.comments {
+            // A comment that continues the current line must not merge
+            // with the token that was written before.
+            if let (Some(previous), Some(comment)) =
+                (self.inner.chars().next_back(), comments.leading.first())
+            {
+                if comment_merges_with_previous_char(comment, previous) {
+                    self.push_ch(' ');
+                }
+            }
             // This is for example the case for situations like
             // some_token /* comment in between */ some_other token
             if comments.leading.len() == 1
@@ -257,6 +278,34 @@ foobar
             &["\
 -- I am a comment
 foobar"],
+        );
+    }
+
+    fn check_tokens_joined(input: &str, expected: &str) {
+        let code = Code::new(input);
+        let mut buffer = Buffer::new();
+        for token in code.tokenize() {
+            buffer.push_token(&token);
+        }
+        assert_eq!(buffer.as_str(), expected);
+    }
+
+    #[test]
+    fn leading_comment_is_separated_from_previous_token() {
+        check_tokens_joined(
+            "\
+-
+-- comment
+b",
+            "\
+- -- comment
+b",
+        );
+        check_tokens_joined("?   /* comment */;", "? /* comment */ ;");
+        check_tokens_joined("( /* comment */ a", "(/* comment */ a");
+        check_tokens_joined(
+            "a; -- comment\n-- comment\nb",
+            "a; -- comment\n-- comment\nb",
         );
     }
 
